@@ -204,7 +204,7 @@ def run_instance(ob, iid, case, tier, seed, default_timeout=120):
     t0 = time.time()
     res = {'id': iid, 'cls': ob.cls, 'funcs': list(ob.funcs), 'case': {k: (v.hex() if isinstance(v, bytes) else v) for k, v in case.items()},
            'status': None, 'paths': 0, 'goals': 0, 'solver_s': 0.0, 'backend': {}, 'used_contracts': [], 'evaluated': [],
-           'canary': ob.canary, 'bound': ob.bound, 'opaque': list(ob.opaque), 'note': ob.note}
+           'canary': ob.canary, 'bound': ob.bound, 'opaque': list(ob.opaque), 'note': ob.note, 'sufficient': ob.sufficient}
     tmo = ob.timeout or default_timeout
     signal.signal(signal.SIGALRM, _alarm)
     signal.alarm(int(tmo * 4 + 60))
